@@ -52,6 +52,17 @@ def battery(rng, tier):
         doc = "\n".join("%s: %s" % (rng.choice(["Name", "Version", "Keywords", "Classifier", "Project-URL", "X-Foo", "name", "Requires-Dist", "Metadata-Version"]),
                                     rng.choice(["a", "1.0", "a,b", "Home, https://x", "caf\xe9", "x; extra == 'y'"])) for _ in range(rng.randrange(0, 7))) + rng.choice(["\n", "\n\nbody\n"])
         out.append(Case("battery", "det.email", [doc, rng.choice("sb")]))
+        # plain functions on families of related spellings (a cache keyed on a normalised form would make the answer depend on which came first)
+        lic = rng.choice(["Kazlib", "MIT", "Apache-2.0", "GPL-2.0-or-later", "LicenseRef-Foo", "mit OR kazlib", "MIT WITH KiCad-libraries-exception"])
+        for t in {lic, lic.lower(), lic.upper(), lic.replace("K", "\u212a").replace("k", "\u212a"), " " + lic + " ", lic.replace(" ", "  ")}:
+            out.append(Case("battery", "det.fn", ["license", t]))
+        nm = rng.choice(["Foo_Bar", "_private", "pkg-", "a--b", "foo.bar", "x", "A.B_c", "foo\n"])
+        for t in {nm, nm.lower(), nm.upper(), nm.replace("_", "-").replace(".", "-")}:
+            for fn in rng.sample(["name", "name.validate", "is_normalized"], 3): out.append(Case("battery", "det.fn", [fn, t]))
+        v = gen.rand_v(rng)
+        for t in {gen.spell(rng, v), gen.spell(rng, v), gen.vstr(v), gen.vstr(v) + ".0"}:
+            for fn in ("canon_version", "canon_version.nostrip", "version"): out.append(Case("battery", "det.fn", [fn, t]))
+        out.append(Case("battery", "det.fn", ["sdist", "%s-%s%s" % (rng.choice(gen_misc.NAMES), gen.vstr(gen.rand_v(rng, 0.1)), rng.choice([".tar.gz", ".zip"]))]))
         ops = []
         for _ in range(rng.randrange(2, 8)):
             k = rng.choice(["contains", "filter", "str", "hash", "len", "iter", "and", "pre"])
